@@ -359,6 +359,47 @@ def stitched_listing_order(ctx, n):
             ctx.nontrivial("stitched:" + json.dumps([c["hunk"], c["kind"], lp[:6]]))
 
 
+def changing_source_order(ctx, n):
+    """A small file is emptied between the walk's stat and the backup's read while earlier small files are still waiting in
+    the combiner: it is recorded at once, they later; the written hunks and every listing must still be in path order."""
+    cases = []
+    for t in range(n):
+        names_ = ["app.log", "app.log.1", "b", "c.txt", "notes", "zz"][: ctx.rng.choice([4, 5, 6])]
+        tree = {"k": "d", "mode": 0o755, "mtime": 10**18, "c": {
+            nm: {"k": "f", "data": gen.rand_bytes(ctx.rng, ctx.rng.choice([6, 10, 24])).hex(), "mode": 0o644, "mtime": 10**18 + i}
+            for i, nm in enumerate(names_)}}
+        srt = sorted(names_, key=lambda x: gen.apath_key("/" + x))
+        vi = ctx.rng.randrange(1, len(srt))
+        victim, after = srt[vi], "/" + srt[ctx.rng.randrange(0, vi)]
+        if t % 2 == 0:
+            after = "/" + srt[vi - 1]
+        opts = {"meph": ctx.rng.choice([100000, 100000, 3]), "mbs": 1000, "sfc": 1000, "mutate": [{"after": after, "path": victim, "len": 0}]}
+        cases.append({"id": f"cs{t}", "steps": [{"op": "init"}, {"op": "mktree", "path": "src", "tree": tree}, {"op": "backup", "opts": opts},
+                                                  {"op": "list", "band": 0}, {"op": "arch"}]})
+    res = ctx.cvh_run(cases)
+    for c in cases:
+        r = res.get(c["id"])
+        ctx.count()
+        if r is None or any(isinstance(x, dict) and x.get("panic") for x in r):
+            pan = [x.get("panic") for x in (r or []) if isinstance(x, dict) and x.get("panic")]
+            ctx.oracle_fail("index/backup-failed", f"backup of a changing source crashed or hung: {str(pan)[:200]}", {"steps": c["steps"]})
+            continue
+        lst, arch = r[3], r[4]
+        if lst.get("result") == "ok":
+            bad = strictly_increasing([e["apath"] for e in lst["value"]])
+            if bad:
+                ctx.oracle_fail("listing/order", f"listing not strictly increasing at {bad} (a file emptied while the backup ran)", {"steps": c["steps"]})
+                continue
+        hunks = sorted((k, v) for k, v in arch["arch"]["files"].items() if v.get("t") == "hunk")
+        bad = strictly_increasing([e["apath"] for _, h in hunks for e in h["v"]])
+        if bad:
+            ctx.oracle_fail("hunks/order", f"written index not strictly increasing within/across hunks at {bad} (a file emptied while the backup ran)",
+                            {"steps": c["steps"]})
+            continue
+        ctx.dist("changing_source_backups", 1)
+        ctx.nontrivial("changing-source:" + c["id"])
+
+
 def run(ctx):
     quick = ctx.tier == "quick"
     alphabet = sub_alphabet(ctx, 4 if quick else 5, 2)
@@ -384,6 +425,7 @@ def run(ctx):
     ctx.sample({"random_pair": list(pairs[0])})
     walk_and_index_order(ctx, 40 if quick else 600)
     stitched_listing_order(ctx, 40 if quick else 600)
+    changing_source_order(ctx, 12 if quick else 200)
     ctx.assumptions += ["strings are compared as UTF-8 byte sequences (Rust str::cmp)",
                         "walk/listing/hunk order is checked on generated trees; the walk theorem is in TreeP.v"]
 
